@@ -136,6 +136,8 @@ def run(prog, chk):
     chk.guard(r078, prog, chk)
     from .c16 import r167
     chk.guard(r167, prog, chk, "R07.9")
+    from .c08 import check_glyph_copy_complete
+    chk.guard(check_glyph_copy_complete, prog, chk, "R07.10")
 
 
 # ----------------------------------------------------------------------------- R07.2
